@@ -28,6 +28,8 @@ def freshTx (mode : EngineMode) : Tx := newTx mode {}
 /-- feeding the request of a test case into a transaction (API Add* calls) -/
 def feed (tx : Tx) (get post hdr : List (Bytes × Bytes)) : Tx :=
   let addAll (m : CMap) (ps : List (Bytes × Bytes)) : CMap := ps.foldl (fun m p => m.add p.1 p.2) m
-  { tx with argsGet := addAll tx.argsGet get, argsPost := addAll tx.argsPost post, reqHeaders := addAll tx.reqHeaders hdr }
+  -- transaction.go:377 AddRequestHeader ignores a header with an empty name
+  { tx with argsGet := addAll tx.argsGet get, argsPost := addAll tx.argsPost post,
+            reqHeaders := addAll tx.reqHeaders (hdr.filter fun p => !p.1.isEmpty) }
 
 end Coraza.Engine
